@@ -148,7 +148,7 @@ Fixpoint caw (fuel:nat) (s:str) (line:nat) (have_comment:bool) (last:word) (acc:
       else if negb (is1 w "#") then finish s line
       else caw f r l true w acc lead
     else if isq w || weq last [bs] then
-      caw f r l have_comment w (if have_comment then acc else w :: acc) lead
+      caw f r l have_comment w (if have_comment || (negb (isq w) && is1 w bs) then acc else w :: acc) lead
     else if negb (wline w =? wline last)%nat then finish s line
     else caw f r l have_comment w (if have_comment || is1 w bs then acc else w :: acc) lead
   end end.
